@@ -77,6 +77,7 @@ def structured_docs():
         'inline-note-newline-only': 'x[>(a)\n] y [?(b)\n] z [^\n]\n',
         'meta-no-newline-multibyte': 'title: café\nauthor: \U0001F600',
         'meta-key-only': 'tivlVe:',
+        'link-attributes-and-same-label': '[the manual](http://x/y.pdf class="external") and [the manual][] ![i](p.png width=40px)\n\n[the manual]: http://z "T" width=40px\n\n# the manual\n',
         'image-with-empty-url': '![a]()\n\ntext ![b][r]\n\n[r]: <>\n',
         'long-transclusion-marker': 'a {{' + 'x' * 1500 + '}} b\n',
         'long-image-url': '![a](' + 'u' * 1500 + '.png)\n\n![b](pic.png "t")\n',
@@ -185,6 +186,30 @@ def _env(mode):
     return {'FZ_MODE': mode, 'FZ_FIXTURE': fuzz.fixture()}
 
 
+def run_paths(b, mode, paths):
+    return subprocess.run([b, '-detect_leaks=0', '-rss_limit_mb=4096', '-timeout=120'] + paths, env=common.san_env(_env(mode)), stdout=subprocess.PIPE, stderr=subprocess.PIPE)
+
+
+def replay_sequence(path):
+    import base64, json, tempfile
+    spec = json.load(open(path))
+    d = tempfile.mkdtemp(prefix='c01seq', dir=common.scratch_dir('c01seq'))
+    files = []
+    for i, x in enumerate(spec['inputs']):
+        f = os.path.join(d, '%04d' % i)
+        open(f, 'wb').write(base64.b64decode(x))
+        files.append(f)
+    q = run_paths(binary(spec['variant']), spec['mode'], files)
+    shutil.rmtree(d, ignore_errors=True)
+    if q.returncode != 0:
+        sig = common.san_signature(q.stderr)
+        common.violation(PROP, path, (common.sig_str(sig) if sig else 'crash') + ':after-earlier-conversions variant=%s mode=%s' % (spec['variant'], spec['mode']))
+        print(q.stderr.decode(errors='replace')[-2500:])
+        return 1
+    print('replay passes:', path)
+    return 0
+
+
 def run_regressions(reg, ev):
     """Every regression input through both variants; returns [(path, variant, mode, sig)]."""
     fails = []
@@ -199,15 +224,45 @@ def run_regressions(reg, ev):
                                stdout=subprocess.PIPE, stderr=subprocess.PIPE)
             if p.returncode != 0:
                 # find the culprits one by one
+                found = False
                 for path in paths:
                     ok, sig, _err = fuzz.execute(b, path, _env(mode), hang_is_failure=True)      # alone and unloaded: 60 s means it never returns
                     if not ok:
                         fails.append((path, v, mode, sig))
+                        found = True
+                if not found:
+                    # no single input fails in a fresh process: the failure needs the HISTORY of conversions in one process (pool re-use
+                    # across init/drain cycles, state left behind by an earlier conversion).  Shortest failing prefix -> sequence replay file.
+                    lo, hi = 1, len(paths)
+                    run = lambda n: subprocess.run([b, '-detect_leaks=0', '-rss_limit_mb=4096', '-timeout=120'] + paths[:n], env=common.san_env(_env(mode)),
+                                                   stdout=subprocess.PIPE, stderr=subprocess.PIPE)
+                    while lo < hi:
+                        mid = (lo + hi) // 2
+                        if run(mid).returncode != 0:
+                            hi = mid
+                        else:
+                            lo = mid + 1
+                    q = run(lo)
+                    if q.returncode != 0:
+                        sig = common.san_signature(q.stderr)
+                        seq = paths[max(0, lo - 6):lo]
+                        if run_paths(b, mode, seq).returncode == 0:
+                            seq = paths[:lo]
+                        import base64, json
+                        rp = os.path.join(os.path.dirname(paths[0]), 'sequence-%s-%s.json' % (mode, v))
+                        json.dump({'sequence': True, 'mode': mode, 'variant': v, 'inputs': [base64.b64encode(open(x, 'rb').read()).decode() for x in seq]}, open(rp, 'w'))
+                        fails.append((rp, v, mode, (common.sig_str(sig) if sig else 'crash') + ':after-earlier-conversions'))
     return fails
 
 
 def replay(path):
-    """A replay file is a raw fuzz input; its mode is taken from the parent directory name (or tried in turn)."""
+    """A replay file is a raw fuzz input; its mode is taken from the parent directory name (or tried in turn).  A JSON file with
+    "sequence": true holds several inputs that are run in ONE process, in order."""
+    try:
+        if open(path, 'rb').read(20).lstrip().startswith(b'{"sequence"'):
+            return replay_sequence(path)
+    except OSError:
+        pass
     mode = os.path.basename(os.path.dirname(os.path.abspath(path)))
     if '-' in mode and mode.split('-')[0] in MODES:
         mode = mode.split('-')[0]
